@@ -8,6 +8,11 @@ ALL = [f'C{i:02d}' for i in range(1, 21)]
 
 # id -> (level text, level note, technique, design ref)
 CHECKS = {
+    'C06': (
+        'Bounded-exhaustive exploration of print/parse: every AST the parser returns on all terms up to the node bound (quick 4, thorough 5) covering every expression node kind, all 27 functions x argument shapes, the complete property skeleton universe (widths up to 3/4) with decorations and time bounds, specifications of 1-3 properties and a grid of up to 260 000 time bounds; str -> same entry point -> ==, hash, second str, plus a run-wide injectivity map from printed text to typed tree.',
+        'Equality of typed lifted trees is the reference notion of same AST; texts outside the enumerated universes are not covered.',
+        'bounded exhaustive enumeration of parser outputs with round-trip, fixed-point and global injectivity oracles',
+    ),
     'C13': (
         'Bounded-exhaustive exploration: every term up to the node bound (quick 5, thorough 6) of a grammar with references in every slot kind, as expression and predicate; negate, both this/var replacements (aliases unused and used), their inverse law and event alias rewriting are compared with the abstract substitution on lifted trees and by evaluation on every valuation with the alias bound to the message; join on all ordered pairs of small predicates incl. the vacuous ones.',
         'Reference evaluator and abstract substitution are the trusted oracle; aliases captured by quantifiers are outside the alphabet as the property states.',
